@@ -283,6 +283,13 @@ def l_encode_nondet(ex, st, pos, kw, node, star, dstar):
     return [(st, ('val', Val.s(fresh('enc', Str)))), (s2, ('exc', s2.sym_exc(ordinary=True)))]
 
 
+def b_property(ex, st, pos, kw, node, star, dstar):
+    """property(fget): a descriptor object holding the getter"""
+    if 'property' not in LAT.bases:
+        LAT.add('property', ['object'])
+    o = st.alloc('property'); st.wr(o, 'fget', pos[0] if pos else NONE); return val(st, o)
+
+
 def l_utcnow(ex, st, pos, kw, node, star, dstar):
     o = st.alloc('datetime'); st.wr(o, 'instant', I(fresh('now', z3.IntSort()))); st.g['utcnow_reads'] = st.g.get('utcnow_reads', []) + [o]; return val(st, o)
 
@@ -399,7 +406,7 @@ def install(ex):
     L = ex.lib
     L.update({'operator.eq': op_model(ast.Eq), 'operator.ne': op_model(ast.NotEq), 'operator.lt': op_model(ast.Lt), 'operator.le': op_model(ast.LtE),
               'operator.gt': op_model(ast.Gt), 'operator.ge': op_model(ast.GtE)})
-    L.update({'builtins.len': b_len, 'builtins.isinstance': b_isinstance, 'builtins.callable': b_callable, 'builtins.str': b_str,
+    L.update({'builtins.property': b_property, 'builtins.len': b_len, 'builtins.isinstance': b_isinstance, 'builtins.callable': b_callable, 'builtins.str': b_str,
               'builtins.repr': b_repr, 'builtins.bool': b_bool, 'builtins.list': b_list, 'builtins.tuple': b_list, 'builtins.dict': b_dict,
               'builtins.type': b_type, 'builtins.iter': b_iter, 'builtins.hasattr': b_hasattr, 'builtins.enumerate': b_enumerate,
               'functools.reduce': l_reduce, 'random.Random': l_random_new, 'builtins.round': b_round, 'itertools.islice': l_islice, 'builtins.int': b_int, 'builtins.float': b_float, 'builtins.bytes': b_bytes, 'builtins.set': b_set, 'builtins.frozenset': b_set,
